@@ -32,6 +32,7 @@ func main() {
 	Register("query", runQuery)
 	Register("yaml", runYAML)
 	Register("tokens", runTokens)
+	Register("modules", runModules)
 	Register("bin", runBin)
 	Register("replay", runReplay)
 	Main()
@@ -955,10 +956,171 @@ func runTokens(c *Ctx) {
 }
 
 // ---------------------------------------------------------------------------------------------
+// stream modules: syntax errors in files other than the main query: modules (import / include through -L,
+// ~/.jq auto-include), data modules (.json), and -f files, with prefixes that make byte offsets, characters
+// and display columns differ (UTF-8 BOM, CR LF / CR lines, multi-byte and wide text).  The reported file
+// name, line, excerpt and caret are checked against the first byte of the rejected token IN THE FILE'S BYTES.
+
+// positionOf: 1-based line (LF, CR LF, lone CR) and the start of the line of byte inj
+func positionOf(contents string, inj int) (line, lineStart, lineEnd int) {
+	line = 1
+	for i := 0; i < inj; i++ {
+		if contents[i] == '\n' || contents[i] == '\r' && (i+1 >= len(contents) || contents[i+1] != '\n') {
+			line++
+			lineStart = i + 1
+		}
+	}
+	lineEnd = inj
+	for lineEnd < len(contents) && contents[lineEnd] != '\n' && contents[lineEnd] != '\r' {
+		lineEnd++
+	}
+	return
+}
+
+// pointsAt: does the report (rep) name line/column/excerpt of byte inj of contents?
+func pointsAt(rep, contents string, inj int) (bool, string) {
+	line, ls, le := positionOf(contents, inj)
+	if inj-ls > 48 {
+		return true, "" // excerpt window: judged by the model/spec lines
+	}
+	wantCol := runewidth.StringWidth(contents[ls:inj])
+	f := strings.Fields(strings.Trim(rep, "()"))
+	gotLine, gotCol := 1, -1
+	if len(f) == 4 {
+		if f[1] != "-" {
+			gotLine, _ = strconv.Atoi(f[1])
+		}
+		gotCol, _ = strconv.Atoi(f[3])
+	}
+	ex := excerptOf(rep)
+	if gotLine == line && gotCol == wantCol && strings.HasPrefix(contents[ls:le], ex) && (len(ex) >= 61 || ex == contents[ls:le] || len(contents[ls:le])-len(ex) <= 3) {
+		return true, ""
+	}
+	return false, fmt.Sprintf("reported line %d column %d excerpt %q; byte %d is at line %d column %d of %q", gotLine, gotCol, ex, inj, line, wantCol, contents[ls:le])
+}
+
+func runModules(c *Ctx) {
+	tmp, _ := os.MkdirTemp("", "c17m")
+	defer os.RemoveAll(tmp)
+	oldHome := os.Getenv("HOME")
+	defer os.Setenv("HOME", oldHome)
+	const bom = "\ufeff"
+	prefixes := []string{
+		"", bom, bom + "# c\n", "# \u4e16\u754c\r\n", "def g: \"\u4e16\u754c \u00e9\";\r", "\n\n",
+		"def g: \"\U0001F600\u3042\"; ", bom + "def h: 1;\r\ndef g: \"\u4e16\"; ",
+	}
+	ctxs := []struct{ name, prefix, admit string }{
+		{"after-reduce-pattern", "def f: reduce . as $v ", "("},
+		{"after-label", "def f: label ", "$"},
+		{"after-label-var", "def f: label $out ", "|"},
+	}
+	toks := lexTokens()
+	n := 0
+	run := func(args []string) (string, string) {
+		var out, er bytes.Buffer
+		cli.VerifRunC17(args, strings.NewReader(""), &out, &er)
+		return out.String(), er.String()
+	}
+	for ti, t := range toks {
+		for ci, cx := range ctxs {
+			if cx.admit == t.inject || cx.admit == "$" && strings.HasPrefix(t.inject, "$") && !strings.Contains(t.inject, "::") {
+				continue
+			}
+			for pi, pre := range prefixes {
+				src := pre + cx.prefix + t.inject + " 1;\n"
+				inj := len(pre) + len(cx.prefix)
+				// kinds of file: module through import, through include, ~/.jq, -f
+				kind := []string{"import", "include", "home", "file"}[(ti+ci+pi)%4]
+				dir := filepath.Join(tmp, fmt.Sprintf("d%d", n))
+				os.MkdirAll(dir, 0o755)
+				var fname string
+				var args []string
+				os.Setenv("HOME", dir)
+				switch kind {
+				case "import":
+					fname = filepath.Join(dir, "m.jq")
+					args = []string{"-n", "-L", dir, `import "m" as m; 1`}
+				case "include":
+					fname = filepath.Join(dir, "m.jq")
+					args = []string{"-n", "-L", dir, `include "m"; 1`}
+				case "home":
+					fname = filepath.Join(dir, ".jq")
+					args = []string{"-n", "1"}
+				case "file":
+					fname = filepath.Join(dir, "q.jq")
+					src = pre + strings.TrimPrefix(cx.prefix, "def f: ") + t.inject + " 1\n"
+					inj = len(pre) + len(strings.TrimPrefix(cx.prefix, "def f: "))
+					args = []string{"-n", "-f", fname}
+				}
+				os.WriteFile(fname, []byte(src), 0o644)
+				_, stderr := run(args)
+				os.RemoveAll(dir)
+				n++
+				c.Count("modules:" + kind)
+				desc := fmt.Sprintf("kind=%s ctx=%s tok=%s file=%s", kind, cx.name, strconv.Quote(t.inject), strconv.Quote(src))
+				shown := strings.Replace(stderr, fname, "<FILE>", -1)
+				rep := parseReport(shown, "invalid query: ", "<FILE>", src)
+				if rep == "(rep - - 0)" {
+					c.Violation("module-position other :: a syntax error in the file was not reported as `invalid query: <file>:<line>` with an excerpt (stderr %s) %s", strconv.Quote(shown), desc)
+					continue
+				}
+				ok, why := pointsAt(rep, src, inj)
+				if !ok && strings.HasPrefix(pre, bom) {
+					// a byte order mark is itself rejected by the lexer: then the report must point at it
+					ok, _ = pointsAt(rep, src, 0)
+				}
+				if !ok {
+					c.Violation("module-position other :: %s %s", why, desc)
+				}
+			}
+		}
+	}
+	// data modules: jsonParseError through the compile error path, whole file as contents
+	r := c.Rng.Fork()
+	for i := 0; i < 60; i++ {
+		term := terms[i%3]
+		doc := genDoc(r, []int{40, 300, 3000, 20000}[i%4], term, i%2)
+		if i%5 == 4 {
+			doc = append([]byte(bom), doc...)
+		}
+		x := r.Intn(len(doc))
+		data := corrupt(doc, x, r.Intn(4))
+		errk, has := refJSONError(data)
+		if !has {
+			continue
+		}
+		dir := filepath.Join(tmp, fmt.Sprintf("j%d", i))
+		os.MkdirAll(dir, 0o755)
+		fname := filepath.Join(dir, "d.json")
+		os.WriteFile(fname, data, 0o644)
+		_, stderr := run([]string{"-n", "-L", dir, `import "d" as $d; 1`})
+		os.RemoveAll(dir)
+		if !strings.HasPrefix(stderr, "gojq: compile error: invalid json: ") {
+			c.Violation("module-position other :: a syntax error in a data module was not reported as invalid json (stderr %s) file=%s", strconv.Quote(stderr), strconv.Quote(string(data)))
+			continue
+		}
+		// the model line: the command's text without the "compile error: " wrapper
+		stderr = "gojq: " + strings.TrimPrefix(stderr, "gojq: compile error: ")
+		rep := parseReport(stderr, "invalid json: ", fname, fname)
+		if strings.HasPrefix(errk, "(syn ") {
+			raw := strings.TrimSuffix(strings.TrimPrefix(errk, "(syn "), ")")
+			errk = strings.TrimSuffix(errk, ")") + " " + raw + ")"
+		}
+		c.Emit("(json (whole) %s %s %s (c) (st) %s %s %s)", Hexs([]byte(fname)), rle(data), errk, Hexs([]byte(stderr)), rep, swtab(excerptOf(rep)))
+		c.Count("modules:json")
+	}
+	c.Stats["module_cases"] = n
+}
+
+// ---------------------------------------------------------------------------------------------
 // YAML: only the rendering of go-yaml's index is gojq's
 
-func refYAMLIndex(data []byte) (int, bool) {
-	dec := yaml.NewDecoder(bytes.NewReader(data))
+func refYAMLIndex(data []byte) (int, bool) { return refYAMLIndexFrom(bytes.NewReader(data)) }
+
+// go-yaml's mark can depend on how the input arrives (e.g. a BOM in the middle of a stream read byte by
+// byte): the index is taken from an independent decode over the same kind of reader
+func refYAMLIndexFrom(r io.Reader) (int, bool) {
+	dec := yaml.NewDecoder(r)
 	for {
 		var v any
 		err := dec.Decode(&v)
@@ -990,10 +1152,18 @@ func runYAML(c *Ctx) {
 		"- a\n- b: c\n  d: [1, 2, 3]\n- \"quoted \u00e9\"\n",
 		"k1: v1\nk2: |\n  block text\n  more\nk3: end\n",
 		"\u4e16\u754c: 1\nk\u00e9y: [1, 2]\n\U0001F600: {a: \u3042}\n",
+		// characters the YAML parser itself counts as line breaks (NEL, LS, PS) in quoted scalars, plain scalars
+		// and comments; tabs; wide text: the printed line number is getLineByOffset's (LF, CR LF, CR)
+		"q: \"a\u0085b\u2028c\u2029d\"\nplain: x\u2028y \u0085z\n# note \u2029 more\u0085\nk:\t[1,\t2]\nlast: \u4e16\n",
+		"- 'one\u2028two'\n- \"\u0085\"\n- k: v # c\u2029c\n- \u3042: [a, b]\n",
+		"\ufeffbom: 1\nw\u4e16: {a: 1}\nz: 2\n",
 	}
 	faults := []string{"\t", "[", "{", "\"", ": :", "@", "- - :", "]", "&", "*x"}
 	for bi, b := range base {
-		for ti, term := range terms[:2] {
+		for ti, term := range terms {
+			if ti == 2 && bi%2 == 0 {
+				continue // lone CR for every other document
+			}
 			doc := strings.ReplaceAll(b, "\n", term)
 			for x := 0; x <= len(doc); x++ {
 				if !utf8.RuneStart(append([]byte(doc), 'a')[x]) {
@@ -1023,6 +1193,9 @@ func runYAML(c *Ctx) {
 						pr = &pipeReader{data: data, policy: policies[pol]}
 						stdin = pr
 						trs = "(pipe " + pol + ")"
+						if i2, ok := refYAMLIndexFrom(&pipeReader{data: data, policy: policies[pol]}); ok {
+							idx = i2
+						}
 					}
 					out := &outRecorder{pr: pr}
 					er := &errRecorder{pr: pr}
